@@ -773,9 +773,6 @@ func TestCheck(t *testing.T) {
 	claim, shardDir, firstShard := claimer(r)
 	started := time.Now()
 	deadline := vf.Pick(r, 100*time.Second, 25*time.Minute)
-	if d, err := time.ParseDuration(os.Getenv("C06_DEADLINE")); err == nil && d > 0 { // TEMP
-		deadline = d
-	}
 	var st explore.Stats
 	var caps []string
 	stats := make([]*unitStat, len(jobs))
